@@ -448,15 +448,6 @@ def classify(name, c, what="matrix"):
             return "dft-inv-padded"
     if name in ("AngularSpectrumPropagator", "FresnelPropagator") and c.get("pad_factor", 1) > 1:
         return "dft-inv-padded"
-    if name == "FraunhoferPropagator" and what == "matrix":
-        import linops_ref
-
-        # destination grid built with a float-step range: one sample too many for these parameters
-        for n, d in zip(c["shape"], linops_ref._dxs(c)):
-            ell = n * d  # same floating-point expressions as the constructor
-            dxD, LD = abs(2 * np.pi * c["z"] / (c["k0"] * ell)), abs(2 * np.pi * c["z"] / (c["k0"] * d))
-            if len(np.r_[-LD / 2 : LD / 2 : dxD]) != n:
-                return "fraunhofer-grid-length"
     if name == "ProjectedGradient" and c["cdiff"] and c["coord"] is not None:
         nax = len(c["shape"]) if c["axes"] is None else len(c["axes"])
         if nax == 1:
@@ -1012,7 +1003,6 @@ def _axes_oracle(case):
 
 
 KNOWN_WITNESSES = {
-    "fraunhofer-grid-length": ("FraunhoferPropagator", {"shape": [17], "dx": 0.7, "k0": 3.0, "z": 0.1}, "matrix"),
     "dft-inv-padded": ("DFT", {"shape": [4], "axes": None, "axes_shape": [8], "norm": None}, "inverse"),
     "projgrad-cdiff-single-axis": ("ProjectedGradient", {"shape": [4], "axes": [0], "coord": [{"array": {"shape": [1, 4], "re": [0.0, 0.25, 1.5, 0.625], "im": None}}], "cdiff": True, "dtype": "float64"}, "matrix"),
 }
